@@ -5,6 +5,7 @@ import (
 	"regexp"
 	"sort"
 	"strconv"
+	"strings"
 )
 
 // Classification of mismatches into small signatures (matched by the python driver against
@@ -82,6 +83,7 @@ func facts(part string, ops []any, span int) map[string]any {
 	ffFrom, mrFrom := 0, 0
 	lp, errFalse := false, false
 	code2, otelOnly, nilData := false, false, false
+	nilWhich := ""
 	for _, x := range ops {
 		op, _ := x.(map[string]any)
 		if op == nil {
@@ -151,11 +153,11 @@ func facts(part string, ops []any, span int) map[string]any {
 				}
 			}
 		case "ocm":
-			for _, m := range list(op, "ms") {
-				if hasNil(m) {
-					nilData = true
-				}
-			}
+			kinds := map[string]bool{}
+			nilKinds(op["ms"], kinds)
+			delete(kinds, "metric") // a nil *Metric is skipped by design
+			nilData = len(kinds) > 0
+			nilWhich = strings.Join(SortedKeys(kinds), "+")
 		}
 	}
 	switch part {
@@ -169,33 +171,31 @@ func facts(part string, ops []any, span int) map[string]any {
 		out["otelonly"] = otelOnly
 	case "ocm":
 		out["nildata"] = nilData
+		out["nil"] = nilWhich
 	}
 	return out
 }
 
-// hasNil: does an abstract OpenCensus metric case contain a nil pointer class?
-func hasNil(v any) bool {
+// nilKinds: which nil pointer classes an abstract OpenCensus metric case contains.
+func nilKinds(v any, into map[string]bool) {
 	switch x := v.(type) {
 	case map[string]any:
-		for k, e := range x {
-			if k == "nil" {
-				if b, ok := e.(bool); ok && b {
-					return true
-				}
-				if s, ok := e.(string); ok && s != "" {
-					return true
-				}
+		if b, ok := x["nil"].(bool); ok && b {
+			if _, isMetric := x["type"]; isMetric {
+				into["metric"] = true
+			} else {
+				into["series"] = true
 			}
-			if hasNil(e) {
-				return true
-			}
+		}
+		if s, ok := x["nil"].(string); ok && s != "" {
+			into[map[string]string{"ptr": "value", "opts": "bucketoptions"}[s]] = true
+		}
+		for _, e := range x {
+			nilKinds(e, into)
 		}
 	case []any:
 		for _, e := range x {
-			if hasNil(e) {
-				return true
-			}
+			nilKinds(e, into)
 		}
 	}
-	return false
 }
